@@ -125,6 +125,21 @@ def compare(case, impl, model, stats=None, proj=None):
         sc = 0.0
         if not close(ir, mr, sc, stats):
             out.append("%s: impl %s / model %s" % (case.get("fn", op), fh(ir), fh(mr)))
+    elif op == "minit":
+        if ir != _canon_state(mr):
+            out.append("minit: impl %s / model %s" % (ir, mr))
+    elif op == "helpers":
+        if [t[2] for t in ir["tr"]] != [t[2] for t in mr["tr"]] or ir["a"] != mr["a"] or len(ir["sum_q"]) != len(mr["sum_q"]):
+            out.append("helpers ranks/a/shape: impl %s %s / model %s %s" % ([t[2] for t in ir["tr"]], ir["a"], [t[2] for t in mr["tr"]], mr["a"]))
+        else:
+            for a, b in zip(ir["tr"], mr["tr"]):
+                if not (close(a[0], b[0], abs(fh(b[0])), stats) and close(a[1], b[1], 0.0, stats)):
+                    out.append("helpers team rating: impl %s / model %s" % (a, b))
+            if not close(ir["c"], mr["c"], 0.0, stats):
+                out.append("helpers c: impl %s / model %s" % (ir["c"], mr["c"]))
+            for a, b in zip(ir["sum_q"], mr["sum_q"]):
+                if not close(a, b, 0.0, stats):
+                    out.append("helpers sum_q: impl %s / model %s" % (a, b))
     elif op in ("crt", "mrating", "dcopy"):
         if not (close(ir[0], mr[0], 0.0, stats, rel=0.0) and close(ir[1], mr[1], 0.0, stats, rel=0.0)):
             out.append("%s values: impl %s / model %s" % (op, ir[:2], mr[:2]))
